@@ -521,3 +521,117 @@ Proof.
     rewrite shape_of_and. cbn [map]. cbn [map] in HA. unfold after. cbn [is_and].
     apply parse_and_first; assumption.
 Qed.
+
+(* ---------- fuel = length of the argument is enough ---------- *)
+
+Lemma tail_text_length val q l :
+  Forall (fun c => (need c <= length (text val q c))%nat) l ->
+  (list_sum (map (fun c => S (need c)) l) <= length (tail_text val q l))%nat.
+Proof.
+  induction 1 as [|c r Hc _ IH]; [cbn; lia|].
+  cbn [map list_sum fold_right tail_text flat_map]. fold (tail_text val q r). rewrite !app_length.
+  change (length (b " AND ")) with 5%nat. unfold list_sum in IH. lia.
+Qed.
+
+Lemma need_le_length val q f : (need f <= length (text val q f))%nat.
+Proof.
+  induction f as [t o v|g IH|l IH] using ftype_ind'.
+  - cbn [need text app length]. lia.
+  - cbn [need text app length]. rewrite app_length. lia.
+  - destruct l as [|c r]; [cbn; lia|]. rewrite text_and. inversion IH as [|? ? Hc Hr]; subst.
+    pose proof (tail_text_length val q r Hr) as HT. cbn [need map list_sum fold_right]. unfold list_sum in HT.
+    rewrite !app_length. cbn [length]. lia.
+Qed.
+
+Theorem parse_filter_inner_text lenient f :
+  wfb f = true -> Forall leaf_ok (leaves f) ->
+  mpd_parse_filter_gen lenient (inner_text f) = Some (shape_of f, []).
+Proof.
+  intros HW HL. unfold mpd_parse_filter_gen.
+  pose proof (parse_inner_text f lenient (length (inner_text f)) [] HW HL (need_le_length esc [DQ] f)) as H.
+  rewrite app_nil_r in H. rewrite H.
+  unfold after, fin. destruct (is_and f), lenient; reflexivity.
+Qed.
+
+(* ---------- the whole request line ---------- *)
+
+Definition value_ok (tv : tag * bytes) : Prop :=
+  valid_tagb (fst tv) = true /\ no_dq (snd tv) = true /\ N.of_nat (length (snd tv)) < quoted_max.
+
+Lemma reject_free x : argument_reject x = false -> x <> LF /\ x <> 0.
+Proof.
+  intros H. split; intros E; subst x; [rewrite argument_reject_lf in H | rewrite argument_reject_nul in H]; discriminate.
+Qed.
+
+Theorem filter_roundtrip lenient name c0 c f :
+  wf_bytes name -> build name = inr c0 ->
+  wfb f = true -> Forall value_ok (leaves f) ->
+  argument_filter c0 f = Sent c ->
+  mpd_tokenize (send_bytes c) = Some [name; inner_text f] /\
+  mpd_parse_filter_gen lenient (inner_text f) = Some (shape_of f, []).
+Proof.
+  intros Wn Hb HW HV HS. split.
+  2:{ apply parse_filter_inner_text; [exact HW|]. eapply Forall_impl; [|exact HV]. intros tv (A & _ & C). split; assumption. }
+  apply build_ok_iff in Hb as (-> & Hfo & Hcs & _).
+  unfold argument_filter, render_filter in HS. rewrite (wf_and_ok f HW) in HS.
+  rewrite (render_is_outer_escape f) in HS by (eapply Forall_impl; [|exact HV]; intros tv (A & B & _); split; assumption).
+  set (e := inner_text f) in *.
+  destruct (add_argument_raw_cases name ([DQ] ++ esc e ++ [DQ])) as [(i & E & _)|(E & F)]; rewrite E in HS; [discriminate|].
+  inversion HS; subst c; clear HS E.
+  assert (Hname : Forall (fun x => valid_word_char x = true /\ is_ws x = false /\ x <> LF /\ x <> 0) name).
+  { apply Forall_forall. intros x Hin. unfold wf_bytes in Wn. rewrite Forall_forall in Wn, Hcs.
+    destruct (command_charset_plain x (Wn x Hin) (Hcs x Hin)) as (A & B & C & _).
+    split; [apply command_charset_word; auto | auto]. }
+  assert (Hline : mpd_line (send_bytes (name ++ [SP] ++ [DQ] ++ esc e ++ [DQ])) = name ++ [SP] ++ [DQ] ++ esc e ++ [DQ]).
+  { apply mpd_line_send.
+    - apply Forall_app. split; [eapply Forall_impl; [|exact Hname]; cbn; tauto|].
+      constructor; [split; discriminate|]. eapply Forall_impl; [|exact F]. intros x Hx. apply reject_free. exact Hx.
+    - rewrite !app_assoc. apply ends_app. exists DQ, []. split; reflexivity. }
+  cbn [app] in Hline. unfold mpd_tokenize. rewrite Hline.
+  destruct name as [|n0 n']; [contradiction|]. cbn [first_ok] in Hfo.
+  assert (Hl : valid_word_first n0 = true) by (apply first_charset_letter; [inversion Wn; assumption | exact Hfo]).
+  cbn [app next_word]. rewrite Hl. inversion Hname as [|? ? _ Hn']; subst.
+  rewrite (scan_word n' (SP :: DQ :: esc e ++ [DQ])); [| eapply Forall_impl; [|exact Hn']; cbn; tauto | right; eexists; reflexivity].
+  change (strip_left (SP :: DQ :: esc e ++ [DQ])) with (DQ :: esc e ++ [DQ]).
+  cbn [length params next_param]. change (DQ =? DQ) with true. cbv iota.
+  rewrite (string_body_esc e [] (or_introl eq_refl)). cbn [strip_left]. destruct (length (esc e ++ [DQ])); reflexivity.
+Qed.
+
+(* ---------- meaning: and is conjunction, negate is negation ---------- *)
+
+Lemma eval_and_children leaf f :
+  forallb (eval leaf) (map shape_of (and_children f)) = eval leaf (shape_of f).
+Proof.
+  destruct f as [t o v|g|l]; cbn [and_children map forallb]; [apply andb_true_r | apply andb_true_r |].
+  rewrite shape_of_and, eval_and. reflexivity.
+Qed.
+
+Theorem eval_filter_and leaf a c :
+  eval leaf (shape_of (filter_and a c)) = eval leaf (shape_of a) && eval leaf (shape_of c).
+Proof.
+  unfold filter_and. rewrite shape_of_and, eval_and, map_app, forallb_app, !eval_and_children. reflexivity.
+Qed.
+
+Theorem eval_filter_negate leaf a : eval leaf (shape_of (filter_negate a)) = negb (eval leaf (shape_of a)).
+Proof. reflexivity. Qed.
+
+Theorem filter_and_assoc a c d : filter_and (filter_and a c) d = filter_and a (filter_and c d).
+Proof. unfold filter_and. cbn [and_children]. rewrite app_assoc. reflexivity. Qed.
+
+(* Tag::try_from accepts exactly the names MPD's ExpectWord reads as one word *)
+Lemma tag_charset_is_word_char c : c < 256 -> tag_charset c = is_tag_name_char c.
+Proof.
+  intros H. apply Bool.eqb_prop.
+  apply (sweep (fun c => Bool.eqb (tag_charset c) (is_tag_name_char c))); [vm_compute; reflexivity | exact H].
+Qed.
+
+Lemma try_from_valid s t : wf_bytes s -> tag_try_from s = TagOk t -> valid_tagb t = true.
+Proof.
+  intros W H. unfold tag_try_from in H. destruct s as [|c0 s0] eqn:Es; [discriminate|]. rewrite <- Es in *.
+  destruct (index_of (fun c => negb (tag_charset c)) s) eqn:E; [discriminate|].
+  destruct (lookup_row tag_parse_table s); inversion H; subst t; [apply named_valid|].
+  unfold valid_tagb. cbn [tag_as_str]. rewrite Es. rewrite <- Es.
+  apply index_of_none_forall in E. apply forallb_forall. intros x Hin.
+  rewrite Forall_forall in E. specialize (E x Hin). unfold wf_bytes in W. rewrite Forall_forall in W.
+  rewrite <- (tag_charset_is_word_char x (W x Hin)). destruct (tag_charset x); [reflexivity | discriminate].
+Qed.
